@@ -1,0 +1,60 @@
+//go:build verif
+// +build verif
+
+package sidecar
+
+// Machine-checked contracts for the sidecar (read by /verif/engine, see /verif/DESIGN.md).
+// This file contains comments only and is excluded from every normal build by the tag "verif".
+
+/*@
+// ---------- the proxy (C12 wiring, C13, C14 call site) ----------
+contract field Proxy.getCurCfg()
+  ensures result != nil && result.ExtraConfig != nil
+  modifies nothing
+contract field Proxy.getJob(jobName)
+  ensures result != nil ==> result.Config != nil
+  modifies nothing
+contract field Proxy.getStatus()
+  ensures forall h, st in result :: st != nil && wfWindow(st)
+  modifies nothing
+
+// the status code Prometheus sees for the response written to w
+pred statusOf(w) = ite(gCode[payload(w)] != 0, gCode[payload(w)], 200)
+
+// scrape attempts made and status updates done in this request
+ghost global gAttempts int
+ghost global gStatusUpdates int
+on call scrape.Scraper.RequestTo(s) in Proxy.ServeHTTP
+   do gAttempts = gAttempts + 1
+
+// "the target's status shows health down with the error; a successful scrape shows health up with no error. Every
+// scrape attempt the proxy makes for an assigned target increments that target's scrape counter exactly once."
+on call target.ScrapeStatus.SetScrapeErr(t, start, err) in Proxy.ServeHTTP
+   do gStatusUpdates = gStatusUpdates + 1
+   assert[C13] @counter_incremented_once t == tar && t.ScrapeTimes == old(t.ScrapeTimes) + 1
+   assert[C13] @error_reported_iff_scrape_failed (err != nil) == (scrapErr != nil || stopReason != "")
+
+// C14: "failures leave the window alone": the scrape result is recorded only for a successful scrape
+on call target.ScrapeStatus.UpdateScrapeResult(t, r) in Proxy.ServeHTTP
+   assert[C14] @result_recorded_only_on_success t == tar && scrapErr == nil
+
+// C12: the response writer is attached to the scraper exactly when scraping is not administratively stopped,
+// whether or not the target is assigned to this shard
+on call scrape.Scraper.RequestTo(s) in Proxy.ServeHTTP
+   assert[C12] @writer_attached_iff_not_stopped (stopReason == "" ==> len(s.writer) == 1 && payload(s.writer[0]) == payload(w))
+        && (stopReason != "" ==> len(s.writer) == 0)
+
+contract Proxy.ServeHTTP
+  requires p != nil && p.getCurCfg != nil && p.getJob != nil && p.getStatus != nil && r != nil && r.URL != nil && w != nil
+  requires gCode[payload(w)] == 0 && gOutLen[payload(w)] == 0
+  ensures[C13] cases {
+     failed_before_any_body_byte: (defined(scrapErr) && (scrapErr != nil || stopReason != "") && gOutLen[payload(w)] == 0) => statusOf(w) != 200 ;
+     failed_after_body_started:   (defined(scrapErr) && (scrapErr != nil || stopReason != "") && gOutLen[payload(w)] > 0) => statusOf(w) != 200 ;
+     bad_request:                 !defined(scrapErr) => statusOf(w) != 200
+  }
+  ensures[C13] @one_status_update_per_attempt_on_assigned_target defined(tar) ==> (tar != nil ==> gStatusUpdates - old(gStatusUpdates) == gAttempts - old(gAttempts)) && gAttempts == old(gAttempts) + 1
+  ensures[C12] @success_leaves_status_200 (defined(scrapErr) && scrapErr == nil && stopReason == "") ==> statusOf(w) == 200
+  modifies target.ScrapeStatus.*, tkestack.io/kvass/pkg/scrape.Scraper.*, tkestack.io/kvass/pkg/scrape.StatisticsSeriesResult.*, tkestack.io/kvass/pkg/scrape.MetricSamplesInfo.*,
+           mapof(tkestack.io/kvass/pkg/scrape.StatisticsSeriesResult.MetricsTotal), elems(target.ScrapeStatus.lastSeries) at {},
+           gOutLen, gOutData, gCode, gAttempts, gStatusUpdates, gKept, gMetricTotal, gMetricScraped, gClock
+@*/
